@@ -37,6 +37,45 @@ Section History.
 
   Definition hrun (sl : mstate * (nat -> linstr)) (xs : list hop) := fold_left hstep xs sl.
 
+  (* the same discipline as a boolean (for concrete histories: decided by computation) *)
+  Definition handle_okb (s : mstate) (h : nat) : bool :=
+    match nth_error (mhandles s) h with
+    | Some id => match nth_error (mks s) id with
+                 | Some m => match mcache s (owner (k_target m)) (k_target m) with Some id' => Nat.eqb id' id | None => false end
+                 | None => false end
+    | None => false
+    end.
+
+  Definition okb (s : mstate) (x : hop) : bool :=
+    match x with
+    | HOp (MLookup b t) => Nat.eqb b (owner t) && Nat.ltb t ntargets
+    | HOp (MApply h _) | HOp (MReturn h _) | HOp (MWhen h _ _) | HOp (MCancel h) => handle_okb s h
+    | _ => true
+    end.
+
+  Fixpoint disciplinedb (sl : mstate * (nat -> linstr)) (xs : list hop) : bool :=
+    match xs with [] => true | x :: r => okb (fst sl) x && disciplinedb (hstep sl x) r end.
+
+  Lemma handle_okb_sound s h : handle_okb s h = true -> handle_ok s h.
+  Proof.
+    unfold handle_okb, handle_ok, current. destruct (nth_error (mhandles s) h) as [id|]; [|discriminate].
+    destruct (nth_error (mks s) id) as [m|] eqn:Em; [|discriminate].
+    destruct (mcache s (owner (k_target m)) (k_target m)) as [id'|] eqn:E; [|discriminate].
+    intros H. apply Nat.eqb_eq in H. subst id'. exists id, m. split; [reflexivity|]. split; [exact Em|exact E].
+  Qed.
+
+  Lemma okb_sound s x : okb s x = true -> ok s x.
+  Proof.
+    destruct x as [o|t a]; [|intros _; exact I]. destruct o; cbn [okb ok]; try (intros _; exact I); try apply handle_okb_sound.
+    intros H. apply andb_prop in H. destruct H as [H1 H2]. apply Nat.eqb_eq in H1. apply Nat.ltb_lt in H2. split; assumption.
+  Qed.
+
+  Lemma disciplinedb_sound xs : forall sl, disciplinedb sl xs = true -> disciplined sl xs.
+  Proof.
+    induction xs as [|x r IH]; intros sl; cbn [disciplinedb disciplined]; [intros _; exact I|].
+    intros H. apply andb_prop in H. destruct H as [H1 H2]. split; [apply okb_sound; exact H1|apply IH; exact H2].
+  Qed.
+
   (* ---- the invariant *)
   Record Inv (s : mstate) (last : nat -> linstr) : Prop := {
     i_last : forall t, match last t with
